@@ -3,6 +3,11 @@
 import json, subprocess
 ALL=[f"C{i:02d}" for i in range(1,21)]
 CHECKS={
+ "C04": dict(level="exploration", engine="E1-dfs",
+   technique="deviation-bounded stateless DFS over timer action sequences on the real poller, expiry awaited on the timerfd (kernel-decided), reference timer model per schedule generation",
+   text="Every action sequence up to depth 4/5 over two (optionally three, to reuse a closed timer's descriptor number) timers and a FIFO reader on one IO: ScheduleOnce/ScheduleRepeating with delays {<=0, 30us, 10s}, Cancel, Close, new timer, FIFO read, peer data, poll; handler behaviours from timer and I/O callbacks (cancel, close, cancel+re-arm, schedule on itself or the other timer) are deviations, all combinations up to 1/2. Each callback must belong to the live schedule generation, enter no earlier than its delay, and run within two polls once the kernel reports expiry; refused schedules change nothing; Scheduled() equals the model.",
+   note="Short timers are always awaited to expiry before the next action and 10 s timers never expire, so the set of expired timers at each poll is owned by the harness; no upper bound on lateness is asserted; new schedules started inside a repeating timer's own callback are not judged.",
+   design="4/C04"),
  "C01": dict(level="exploration", engine="E1-dfs",
    technique="deviation-bounded stateless DFS over action sequences on the real poller with two real objects and raw-syscall peers; per-operation callback ledger and poll(2) readiness oracle",
    text="Every action sequence up to depth 4 (quick) / 5 (thorough) over all 28 unordered pairs of {Dial conn, accepted conn, FIFO read end, FIFO write end, packet conn, listener, AsyncAdapter} on one IO: start read/write/accept/readfrom/writeto (plain, forced-deferred, *All), peer data / half-close / close / hang-up / RST / connect, cancel, close, poll; handler behaviours (re-issue, cancel or close self/other, re-arm on cancellation) as deviations, all combinations up to 1/2. Callback count <=1 at all times, Cancel completes each in-flight op once with a cancellation error, nothing after Close, delivered bytes are the peer's, and after (in-flight+3) polls nothing that poll(2) reports non-blocking may still be in flight.",
